@@ -131,6 +131,9 @@ pub struct IterSpec {
     pub write: bool,
     /// clone the iterator after this many steps and drain the clone (255 = never)
     pub clone_at: u8,
+    /// how the remainder is consumed after the scripted steps: 0 count(), 1 last(), 2 nth(1),
+    /// 3 nth_back(1), 4 rev().next(), 5 fold over all
+    pub fin: u8,
 }
 
 #[derive(Clone, Copy, Debug, PartialEq, Eq, Hash)]
@@ -324,13 +327,14 @@ impl fmt::Display for Op {
             Op::SegLens => write!(f, "seg_lens"),
             Op::Iter(s) => write!(
                 f,
-                "iter:{}:{}:{}:{}:{}:{}",
+                "iter:{}:{}:{}:{}:{}:{}:{}",
                 s.list,
                 s.fam.name(),
                 s.steps,
                 s.pat,
                 b(s.write),
-                s.clone_at
+                s.clone_at,
+                s.fin
             ),
             Op::Debug => write!(f, "debug"),
         }
@@ -381,6 +385,7 @@ impl Op {
                 pat: u(4)?,
                 write: bb(5)?,
                 clone_at: u(6)? as u8,
+                fin: u(7).unwrap_or(0) as u8,
             }),
             "debug" => Op::Debug,
             _ => return None,
@@ -439,6 +444,9 @@ pub struct IterTrace {
     /// two extra `next`/`next_back` calls after exhaustion returned None?
     pub fused_ok: bool,
     pub drained: bool,
+    /// what the finisher (`fin`) returned: an item, or the number of items folded
+    pub fin_item: Option<(Option<u32>, Option<u64>)>,
+    pub fin_n: usize,
 }
 
 #[derive(Clone, Debug, PartialEq, Eq, Hash)]
